@@ -184,8 +184,9 @@ def run_launch(params, order):
                         pp.outReceived(b'Oct 03 12:00:01.000 [notice] Bootstrapped 100% (done): Done\n')
                     elif step == 'E':
                         try:
-                            pp.errReceived(b'[warn] something on stderr\n')
-                        except RuntimeError:
+                            # (Tor prints file names as they are: not necessarily UTF-8)
+                            pp.errReceived(b'[warn] Could not open "/home/zo\xeb/torrc"\n')
+                        except Exception:
                             pass          # ProcessProtocol errors are logged by the reactor
                     elif step == 'C':
                         if 'd' not in conn:
@@ -317,6 +318,53 @@ def run_launch(params, order):
     return dict(viol=viol, obs=obs, log=log)
 
 
+def run_direct(fault):
+    """TorProcessProtocol used directly (the public class, e.g. tor.process): nobody has asked for the outcome when the deciding
+    event - timeout or process exit - arrives; whoever asks afterwards is told that the launch failed, once"""
+    from twisted.internet import error as _err
+    from twisted.python import failure as _fl
+    viol = []
+    with World() as w:
+        conn = {}
+
+        def creator():
+            conn['d'] = defer.Deferred()
+            return conn['d']
+        pp = controller.TorProcessProtocol(creator, ireactortime=w.reactor, timeout=TIMEOUT, kill_on_stderr=False)
+
+        class T(object):
+            signals = []
+
+            def signalProcess(self, sig):
+                self.signals.append(sig)
+
+            def loseConnection(self):
+                pass
+
+            def closeStdin(self):
+                pass
+        pp.makeConnection(T()) if hasattr(pp, 'makeConnection') else None
+        pp.transport = getattr(pp, 'transport', None) or T()
+        try:
+            pp.connectionMade()
+        except Exception:
+            pass
+        pp.outReceived(MARKER_LINE)
+        if fault == 'timeout':
+            w.reactor.advance(TIMEOUT + 1)
+        else:
+            pp.processEnded(_fl.Failure(_err.ProcessTerminated(exitCode=1)))
+        late = DRec(pp.when_connected())
+        later = DRec(pp.when_connected())
+        for nm, r in (('first', late), ('second', later)):
+            if len(r.fires) != 1 or r.kind != 'err':
+                viol.append(('late-when_connected-disagrees', 'nobody-waited/%s/%s' % (fault, nm),
+                             'the launch had failed (%s) before anybody asked; when_connected() -> %r' % (fault, r.summary()[:2])))
+        errs = [e for e in w.errors() if 'ProcessTerminated' not in repr(e) and 'timeout' not in repr(e).lower()]
+        obs = (late.summary()[0], later.summary()[0])
+    return dict(viol=viol, obs=obs, log=['direct TorProcessProtocol; %s before any when_connected()' % fault])
+
+
 def param_sets(tier):
     out = []
     base = dict(ostyle='whole', connect='ok', own='ack', exit='code1', datadir='temp', kill_on_stderr=False)
@@ -358,11 +406,19 @@ def tasks(tier, seed):
         per = 150
         for i in range(0, len(orders), per):
             out.append((pi, i, i + per))
+    out.append(('direct', 0, 0))
     return out
 
 
 def run_task(param, acc):
     pi, lo, hi = param
+    if pi == 'direct':
+        for fault in ('timeout', 'exit'):
+            r = run_direct(fault)
+            acc.execution(key=('direct', fault), outcome='direct/' + ('/'.join(sorted(set(v[0] for v in r['viol']))) or 'ok'), nontrivial=True, steps=3)
+            for clause, feat, detail in r['viol']:
+                acc.violation('%s/%s' % (clause, feat), detail, dict(direct=fault), cost=2)
+        return
     p = param_sets(acc.tier)[pi]
     orders = all_orders(p)[lo:hi]
     r = None
@@ -381,6 +437,9 @@ def run_task(param, acc):
 
 
 def replay(p):
+    if p.get('direct'):
+        r = run_direct(p['direct'])
+        return dict(violations=[dict(signature='%s/%s' % (c, f), what=d) for c, f, d in r['viol']], log=r['log'] + [repr(r['obs'])])
     r = run_launch(param_sets(p['tier'])[p['pi']], tuple(p['order']))
     return dict(violations=[dict(signature='%s/%s' % (c, f), what=d) for c, f, d in r['viol']], log=r['log'] + [repr(r['obs'])])
 
